@@ -295,6 +295,23 @@ static void tail_line(char *line)
     printf("\n");
 }
 
+/* findtail <seed0> <nseeds> <ndraws> <threshold>: search tool for the corpus — for each seed seed0 .. seed0+nseeds-1 the first of the
+ * first ndraws cmb_random_std_exponential() variates that exceeds the threshold:  -> hit <seed> <index> <value bits> */
+static void findtail_line(char *line)
+{
+    unsigned long long s0 = 0, ns = 0, nd = 0;
+    double thr = 0.0;
+    if (sscanf(line, "%*s %llu %llu %llu %lf", &s0, &ns, &nd, &thr) < 4) { printf("bad-op findtail\n"); return; }
+    for (unsigned long long s = s0; s < s0 + ns; s++) {
+        cmb_random_initialize((uint64_t)s);
+        for (unsigned long long i = 0; i < nd; i++) {
+            const double x = cmb_random_std_exponential();
+            if (x > thr) { printf("hit %llu %llu %016" PRIx64 " %.17g\n", s, i, dbits(x), x); break; }
+        }
+    }
+    printf("findtail done\n");
+}
+
 static void stat_line(char *line)
 {
     char name[48] = "";
@@ -328,6 +345,7 @@ int main(int argc, char **argv)
         if (strcmp(mode, "supp") == 0 || strncmp(p, "supp ", 5) == 0) supp_line(p);
         else if (strcmp(mode, "stat") == 0 || strncmp(p, "stat ", 5) == 0) stat_line(p);
         else if (strncmp(p, "tail ", 5) == 0) tail_line(p);
+        else if (strncmp(p, "findtail ", 9) == 0) findtail_line(p);
         else corr_line(p);
         fflush(stdout);
     }
